@@ -196,10 +196,17 @@ def r4_dead_client_messages(ctx):
     C09.removed_client_purge(ctx)
 
 
+def r20_unconditional_mutators(ctx):
+    """Mutators this property relies on always perform their effect (shared table in rules/mutators.py)."""
+    import rules.mutators as mutators
+    mutators.run_for(ctx, "C06")
+
+
 RULES = [
     ("C06.R1", "no panic edge in the client-controlled region", r1_panic_edges, 15, None),
     ("C06.R2", "no allocation sized by unvalidated client data", r2_bounded_alloc, 1, None),
     ("C06.R3", "decode errors are dropped without leaving the drain loop or propagating", r3_error_discipline, 4, None),
     ("C06.R4", "messages of a removed client are purged before any handler sees them (handlers issue commands on the sender entity)", r4_dead_client_messages, 3, ["default", "all-features", "server-only"]),
+    ("C06.R20", "mutators this property relies on always perform their effect (rules/mutators.py): no early return, no guard outside the allowed set", r20_unconditional_mutators, 1, ["default", "all-features"]),
 ]
 THOROUGH_CONFIGS = ["default", "all-features", "server-only"]
